@@ -32,7 +32,7 @@ struct QState {
 /// Sequential specification: does `op` with result `res` apply in `st`?
 /// `push_pending`: an accepted push that overlaps this operation has not taken
 /// effect yet (the implementation then answers `Empty` rather than `Closed`).
-fn apply(st: &QState, cap: usize, op: &Op, push_pending: bool) -> Option<QState> {
+fn apply(st: &QState, cap: usize, op: &Op, push_pending: bool, stale_releases: usize) -> Option<QState> {
     let mut n = st.clone();
     match (op.op, op.res) {
         (QOp::Push(v), QRes::Ok) => {
@@ -42,7 +42,12 @@ fn apply(st: &QState, cap: usize, op: &Op, push_pending: bool) -> Option<QState>
             n.q.push_back(v);
         }
         (QOp::Push(_), QRes::Full) => {
-            if st.closed || st.q.len() + (st.borrowed as usize) < cap {
+            // Outside sequential consistency (engine E2) a push may still see the slot it targets
+            // as occupied although the consumer has released it, if that release overlaps the
+            // push (no happens-before edge makes it visible): `Full` is then explained by the
+            // occupancy without those releases. The asynchronous sender retries after registering
+            // for a notification, with fences, so no wake-up is lost on that account.
+            if st.closed || st.q.len() + (st.borrowed as usize) + stale_releases < cap {
                 return None;
             }
         }
@@ -100,7 +105,9 @@ fn linearizable(ops: &[Op], cap: usize) -> Option<QState> {
                 continue;
             }
             let push_pending = ops.iter().enumerate().any(|(j, p)| j != i && matches!((p.op, p.res), (QOp::Push(_), QRes::Ok)) && p.inv < o.ret && p.ret > o.inv);
-            if let Some(n) = apply(st, cap, o, push_pending) {
+            // (engine E2 only) releases overlapping this push
+            let stale_releases = if cfg!(feature = "e1") { 0 } else { ops.iter().enumerate().filter(|(j, p)| *j != i && matches!(p.op, QOp::Release) && p.inv < o.ret && p.ret > o.inv).count() };
+            if let Some(n) = apply(st, cap, o, push_pending, stale_releases) {
                 if let Some(f) = rec(ops, done | (1 << i), &n, cap, seen) {
                     return Some(f);
                 }
